@@ -1170,3 +1170,103 @@ Proof.
   constructor. exists ops, ps, rd, acked, eofz, total. simpl. repeat split; auto; try lia.
   intros Ee. rewrite Ee in *. simpl in *. conv_cmp. assumption.
 Qed.
+
+(* ------------------------------------------------------------------------------------------ *)
+(* the helpful step is always on offer: freshness of packet numbers, usefulness of a retransmission *)
+(* ------------------------------------------------------------------------------------------ *)
+
+Definition Fresh (w : world) : Prop :=
+  Forall (fun p => (p_pn p < sd_next_pn (w_s w))%N) (w_net w) /\
+  Forall (fun pn => (pn < sd_next_pn (w_s w))%N) (rc_seen (w_r w)).
+
+Lemma Fresh_init : forall c, Fresh (init c).
+Proof. intros. split; constructor. Qed.
+
+Lemma next_pn_mono : forall w e, (sd_next_pn (w_s w) <= sd_next_pn (w_s (step w e)))%N.
+Proof.
+  intros w e. destruct e; simpl; rewrite ?emit_s; try lia.
+  - unfold s_write. destruct (_ || _); simpl; lia.
+  - unfold s_shutdown. destruct (negb _); simpl; lia.
+  - destruct (s_transmit (w_s w) k) as [s' op] eqn:E. simpl.
+    destruct (s_transmit_cases _ _ _ _ E) as [[-> _]|(? & ? & _ & _ & _ & _ & ->)]; simpl; lia.
+  - unfold s_retransmit. destruct (negb _); simpl; try lia. destruct (sd_retx (w_s w)); simpl; lia.
+  - unfold s_lose. destruct (negb _); simpl; try lia.
+    destruct (take_pn pn (sd_inflight (w_s w))) as [[?|] ?]; simpl; lia.
+  - destruct (nth_error _ _); simpl; lia.
+  - destruct (_ && _); simpl; lia.
+  - destruct (nth_error (w_ctl w) j) as [c|]; simpl; try lia. unfold s_on_ctl.
+    destruct (negb _); simpl; try lia. destruct (ack_all _ _ _). simpl. lia.
+  - destruct (_ && _); simpl; lia.
+Qed.
+
+Lemma Fresh_step : forall w e, Fresh w -> Fresh (step w e).
+Proof.
+  intros w e [Fn Fs].
+  assert (M := next_pn_mono w e).
+  assert (Wn : forall l, Forall (fun p => (p_pn p < sd_next_pn (w_s w))%N) l ->
+                         Forall (fun p => (p_pn p < sd_next_pn (w_s (step w e)))%N) l).
+  { intros l H. eapply Forall_impl; [|exact H]. simpl. intros. lia. }
+  assert (Ws : forall l, Forall (fun pn => (pn < sd_next_pn (w_s w))%N) l ->
+                         Forall (fun pn => (pn < sd_next_pn (w_s (step w e)))%N) l).
+  { intros l H. eapply Forall_impl; [|exact H]. simpl. intros. lia. }
+  split.
+  - (* the log *)
+    destruct e; try (apply Wn; exact Fn).
+    + (* Transmit *)
+      simpl in *. destruct (s_transmit (w_s w) k) as [s' op] eqn:E.
+      destruct (s_transmit_cases _ _ _ _ E) as [[-> ->]|(len & fin & _ & _ & _ & -> & ->)];
+        unfold emit in *; simpl in *; [exact Fn|].
+      apply Forall_app. split; [eapply Forall_impl; [|exact Fn]; simpl; intros; lia|].
+      constructor; [simpl; lia | constructor].
+    + (* Retransmit *)
+      simpl in *. unfold s_retransmit in *. destruct (negb _); unfold emit in *; simpl in *; [exact Fn|].
+      destruct (sd_retx (w_s w)); simpl in *; [exact Fn|].
+      apply Forall_app. split; [eapply Forall_impl; [|exact Fn]; simpl; intros; lia|].
+      constructor; [simpl; lia | constructor].
+    + simpl. destruct (nth_error _ _); simpl; exact Fn.
+    + simpl. destruct (_ && _); simpl; exact Fn.
+    + simpl in *. destruct (nth_error (w_ctl w) j); simpl in *; [apply Wn|]; exact Fn.
+    + simpl in *. destruct (_ && _); simpl in *; [apply Wn|]; exact Fn.
+  - (* the numbers seen *)
+    destruct e; try (simpl in *; rewrite ?emit_r; apply Ws; exact Fs).
+    + (* Deliver *)
+      simpl in *. destruct (nth_error (w_net w) i) as [p|] eqn:E; [|exact Fs]. simpl.
+      unfold r_on_pkt. destruct (negb _); [exact Fs|]. destruct (mem_N _ _); [exact Fs|]. simpl.
+      constructor; [|exact Fs]. rewrite Forall_forall in Fn. apply Fn. eapply nth_error_In; eauto.
+    + simpl. destruct (_ && _); exact Fs.
+    + simpl in *. destruct (nth_error (w_ctl w) j); simpl in *; [apply Ws|]; exact Fs.
+    + simpl in *. destruct (_ && _); simpl in *; [apply Ws|]; exact Fs.
+    + simpl. unfold r_read. destruct (negb _); exact Fs.
+Qed.
+
+Lemma Fresh_run : forall c evs, Fresh (run c evs).
+Proof.
+  intros c evs. unfold run. generalize (Fresh_init c). generalize (init c).
+  induction evs; simpl; intros; auto using Fresh_step.
+Qed.
+
+(* No deadlock on the protocol's side: whenever a range waiting in the retransmission queue contains a
+   byte (or the final size) the receiver lacks, the sender's own [Retransmit] puts a fresh-numbered
+   packet on the wire whose delivery to an accepting receiver IS a helpful step.  (With dc_coverage --
+   every sent offset is acknowledged, in flight or pending -- and [Lose], which moves any in-flight
+   range to the queue, the helpful step needed by dc_eventual_delivery is therefore always on offer
+   for every sent-but-unacknowledged byte; what remains for the environment is not to lose it for ever.) *)
+Theorem dc_retransmit_useful : forall c evs sg rest, (0 < c_idle c)%N ->
+  let w := run c evs in
+  tm_live (sd_tm (w_s w)) = true ->
+  sd_retx (w_s w) = sg :: rest ->
+  accepting (w_r w) = true ->
+  (existsb (fun o => isnone (lookup o (rc_buf (w_r w)))) (seq (s_off sg) (s_len sg))
+   || (s_fin sg && isnone (rc_final (w_r w)))) = true ->
+  useful (step w Retransmit) (Deliver (length (w_net w))) = true.
+Proof.
+  intros c evs sg rest Hi w L R A U.
+  destruct (Fresh_run c evs) as [_ Fs]. fold w in Fs.
+  simpl. unfold s_retransmit. rewrite L, R. simpl. unfold emit. simpl.
+  rewrite nth_error_app2 by lia. rewrite Nat.sub_diag. simpl. rewrite A. simpl.
+  replace (mem_N (sd_next_pn (w_s w)) (rc_seen (w_r w))) with false.
+  - simpl. exact U.
+  - symmetry. destruct (mem_N (sd_next_pn (w_s w)) (rc_seen (w_r w))) eqn:M; auto.
+    unfold mem_N in M. apply existsb_exists in M. destruct M as [y [Hy Ey]]. apply N.eqb_eq in Ey. subst y.
+    rewrite Forall_forall in Fs. specialize (Fs _ Hy). lia.
+Qed.
